@@ -132,11 +132,12 @@ static bool sameLayout(Ctx& c, const char* name, SetA& a, SetB& b, const std::st
 struct KeyGen {
 	Rng& rng; unsigned family; std::vector<uint64_t> clusters; uint64_t serial = 1;
 	KeyGen(Rng& r, unsigned fam) : rng(r), family(fam) { for (int i = 0; i < 6; ++i) clusters.push_back(rng.next() & 0xFFFFF); }
-	uint64_t next() {
+	uint64_t next(size_t have) {
 		switch (family) {
 		case 0: return rng.next();
-		case 1: // a third of the keys share their low 20 bits with one of six clusters: long displacements
-			return rng.chance(1, 3) ? ((rng.next() & ~0xFFFFFull) | clusters[rng.below(clusters.size())]) : rng.next();
+		case 1: // a third of the keys (of the first 3000, then 1 in 64: probing stays affordable) share their low 20 bits with one
+			// of six clusters: long displacements
+			return rng.chance(1, have < 3000 ? 3 : 64) ? ((rng.next() & ~0xFFFFFull) | clusters[rng.below(clusters.size())]) : rng.next();
 		case 2: return serial++ * 7;	// small numbers: top bits zero
 		case 3: return (rng.next() << 44) | rng.below(1 << 12);	// top bits vary, few low bits
 		default: return rng.chance(1, 2) ? rng.biased(64) : (~0ull - rng.below(5000));	// boundary patterns, all-ones neighbourhood
@@ -178,7 +179,7 @@ static void tableRun(Ctx& c, Rng& rng, Suite& s, const char* name, const char* k
 		bool doReserve = (r < 56) && rng.below(a.GetCount() + 8) == 0 && a.mBuckets != nullptr && curL + 1 < maxL;
 		uint64_t key = 0;
 		if (!doReserve) {
-			key = gen.next();
+			key = gen.next(keys.size());
 			if (present.count(key)) continue;
 		}
 		bool hasNext = a.mBuckets != nullptr && a.mBuckets->GetNextBuckets() != nullptr;
